@@ -117,6 +117,28 @@ def job_batch_stream(ctx, key):
                 q = r.step(inst2, q, g[t], a[t], m[t] if r.has_mag else None)
                 rows2.append(np.array(q, float))
             ctx.expect(np.array(rows2).tobytes() == st.tobytes(), f'{key}: two streaming runs are bit-identical', kk, None, 'identical bytes')
+            # the user loop `q = f.update(q, ...)`: whatever object the update returns is handed back as it is (and, as a variant, wrapped
+            # in an ahrs.Quaternion / copied by numpy) instead of being converted to a fresh float array by the harness
+            if hn.startswith('long') or hn in ('word=01210', 'word=02121'):
+                for carrier in ('as returned', 'Quaternion(q)', 'Quaternion(q).copy()'):
+                    try:
+                        from ahrs import Quaternion as _Qn
+                        inst3 = r.fresh(cfg); q = b1[0].copy(); rows3 = [np.array(q, float)]
+                        for t in range(1, len(g)):
+                            qi = q if carrier == 'as returned' else (_Qn(np.array(q, float), versor=False) if carrier == 'Quaternion(q)' else _Qn(np.array(q, float), versor=False).copy())
+                            q = r.step_fn(inst3, qi, g[t].copy(), a[t].copy(), m[t].copy() if r.has_mag else None)
+                            rows3.append(np.array(q, float))
+                    except TypeError:
+                        if carrier == 'as returned':
+                            ctx.fail(f'{key}: streaming run raises', kk + f' a-priori {carrier}', 'TypeError', 'N attitudes')
+                        else:
+                            ctx.outcome(('carrier-refused', key, carrier))
+                        continue
+                    except Exception as ex:
+                        ctx.fail(f'{key}: streaming run raises', kk + f' a-priori {carrier}', f'{type(ex).__name__}: {ex}'[:200], 'N attitudes')
+                        continue
+                    ctx.close(np.array(rows3), b1, 1e-12, f'{key}: batch = stream (a-priori handed back {carrier})', kk)
+                    ctx.cls('stream:carriers')
             ctx.cls('batch=stream')
             ctx.seen((key, ci, hn))
             ctx.states += len(g)
@@ -282,6 +304,26 @@ def job_param_pairs(ctx, key):
         if datetime.datetime.now().hour != 23 or datetime.datetime.now().minute < 55:      # the default depends on today's date
             pairs.append((dict(frame='NED'), dict(frame='ENU'), 'frame(default reference)'))
             pairs.append((dict(frame='ENU'), dict(frame='NED'), 'frame(default reference, ENU first)'))
+    # phase 1: the pair / solo runs, each in a forked child of THIS process, which has not run any filter yet (so every child starts
+    # from a library nobody has used); phase 2 (batch = stream under the varied configuration) runs in this process afterwards
+    for A0, B0, vname in pairs:
+        kk = f'filter={key} varied={vname}'
+        try:
+            solo_a = core.in_fresh_child(_run_cfg, key, A0)
+            solo_b = core.in_fresh_child(_run_cfg, key, B0)
+            ab = core.in_fresh_child(_seq, key, [A0, B0, A0])
+            ba = core.in_fresh_child(_seq, key, [B0, A0, B0])
+        except Exception as ex:
+            ctx.evals += 1
+            ctx.fail(f'{key}: configuration pair run raises', kk, str(ex)[:200], 'completes')
+            continue
+        ctx.expect(ab == [solo_a, solo_b, solo_a], f'{key}: runs after another configuration of the same class equal the solo runs (A, B, A)', kk, None, 'identical bytes')
+        ctx.expect(ba == [solo_b, solo_a, solo_b], f'{key}: runs after another configuration of the same class equal the solo runs (B, A, B)', kk, None, 'identical bytes')
+        ctx.cls('param-pair')
+        ctx.seen((key, vname))
+        ctx.traces += 8
+        ctx.transitions += 8 * 6
+        ctx.states += 8
     for A0, B0, vname in pairs:
         kk = f'filter={key} varied={vname}'
         if r.step_fn is not None:
@@ -299,22 +341,6 @@ def job_param_pairs(ctx, key):
             except Exception as ex:
                 ctx.evals += 1
                 ctx.fail(f'{key}: batch/stream run raises', kk, f'{type(ex).__name__}: {ex}'[:200], 'completes')
-        try:
-            solo_a = core.in_fresh_child(_run_cfg, key, A0)
-            solo_b = core.in_fresh_child(_run_cfg, key, B0)
-            ab = core.in_fresh_child(_seq, key, [A0, B0, A0])
-            ba = core.in_fresh_child(_seq, key, [B0, A0, B0])
-        except Exception as ex:
-            ctx.evals += 1
-            ctx.fail(f'{key}: configuration pair run raises', kk, str(ex)[:200], 'completes')
-            continue
-        ctx.expect(ab == [solo_a, solo_b, solo_a], f'{key}: runs after another configuration of the same class equal the solo runs (A, B, A)', kk, None, 'identical bytes')
-        ctx.expect(ba == [solo_b, solo_a, solo_b], f'{key}: runs after another configuration of the same class equal the solo runs (B, A, B)', kk, None, 'identical bytes')
-        ctx.cls('param-pair')
-        ctx.seen((key, vname))
-        ctx.traces += 8
-        ctx.transitions += 8 * 6
-        ctx.states += 8
     ctx.sample({'filter': key, 'base': {k: (x.tolist() if hasattr(x, 'tolist') else x) for k, x in r.cfgs[0].items()}, 'varied': [p[2] for p in pairs]})
 
 
